@@ -417,6 +417,18 @@ func (w *world) observe() {
 		}
 		pol, _, _ := unstructured.NestedString(m, "spec", "compositionUpdatePolicy")
 		ref, _, _ := unstructured.NestedString(m, "spec", "compositionRevisionRef", "name")
+		if pol != "Manual" && ref != "" {
+			// an Automatic XR only ever selects among revisions its selector matches
+			sel, _, _ := unstructured.NestedStringMap(m, "spec", "compositionRevisionSelector", "matchLabels")
+			if rm := st.Peek(simapi.ObjKey{Group: revGVK.Group, Kind: revGVK.Kind, Name: ref}); rm != nil && len(sel) > 0 {
+				ls := (&unstructured.Unstructured{Object: rm}).GetLabels()
+				for k, v := range sel {
+					if ls[k] != v {
+						w.S.Violate("C12/automatic-xr-ignores-selector", fmt.Sprintf("XR %s selects revisions with %s=%s but references %s (labels %v)", x, k, v, ref, userLabels(&unstructured.Unstructured{Object: rm})))
+					}
+				}
+			}
+		}
 		if pol != "Manual" || ref == "" {
 			continue
 		}
